@@ -254,6 +254,40 @@ func (k c19) Run(c *rt.Ctx) {
 		}
 		rec.Inc("rounds_of_json_statements")
 	}
+	if c.Case%4 == 1 {
+		// focus rounds: every goroutine runs statements of ONE kind at the same time, so that
+		// whatever that kind of statement keeps outside its own plan and context is contended
+		focus := [][]string{
+			{ // vectors split from text
+				"select key, l2_distance(list(1,2,3), split(value, ',')) as d where key ^= '%[1]s' & value ~= '^[0-9]+,[0-9]+,[0-9]+$' order by d, key limit 5",
+				"select key, cosine_distance(split(value, ','), list(3,2,1)) as d where key ^= '%[1]s' & value ~= '^[0-9]+,[0-9]+,[0-9]+$' & d >= 0",
+				"select key, l2_distance(split(value, ','), split(value, ',')) as z, cosine_distance(list(1,1,2), split(value, ',')) where key ^= '%[1]s' & value ~= '^[0-9]+,[0-9]+,[0-9]+$'",
+			},
+			{ // groups keyed by floats
+				"select float(value) / 3.0 as f, count(1) as c, min(key) where key ^= '%[1]s' & value ~= '^[0-9]+(\\.5)?$' group by f",
+				"select float(value) * 1000.5 as f, strlen(value) as l, count(1), group_concat(key, ',') where key ^= '%[1]s' & value ~= '^[0-9]+(\\.5)?$' group by f, l",
+				"select float(value) + 123456.789 as f, sum(float(value)) where key ^= '%[1]s' & value ~= '^[0-9]+(\\.5)?$' group by f order by f desc",
+			},
+			{ // reads of one key
+				"select * where key = '%[1]s001'", "select key, value where '%[1]s002' = key & value != 'zz'", "select * where key in ('%[1]s004')",
+				"select * where key >= '%[1]s006' & key <= '%[1]s006'", "select key, upper(value) where key = '%[1]s007' | key = '%[1]s007'",
+			},
+			{ // named fields, regular expressions, lists
+				"select key, int(value) as n, n * 2 as m, m + n where key ^= '%[1]s' & n >= 0 & m < 100",
+				"select key, upper(value) as u where key ^= '%[1]s' & u ~= '^V[0-9]'",
+				"select key, split(value, ',')[1] as p where key ^= '%[1]s' & 'x' in split(value, ',')",
+				"select value, count(1) as c, sum(int(value)) as s where key ^= '%[1]s' group by value order by c desc, value limit 4",
+			},
+		}
+		fp := focus[(c.Case/4)%len(focus)]
+		for _, p := range plans {
+			for i := range p.stmts {
+				p.stmts[i] = fmt.Sprintf(fp[r.Intn(len(fp))], p.prefix)
+				p.batch[i] = i%3 != 2
+			}
+		}
+		rec.Inc("focus_rounds")
+	}
 	if storeMode == "shared-readonly" && r.Chance(2, 3) {
 		// the very same statement text in every goroutine, first in line (they start together):
 		// anything the library keeps per query text or per function spelling is then shared
